@@ -329,6 +329,28 @@ func TestC03(t *testing.T) {
 		}
 		return c03Case{Spec: gen.CharSpec(t, o), Script: gen.Uint32s(t, "script", 8), Key: rapid.Uint64().Draw(t, "key")}
 	}, c03RunRaw)
+	// 2b. the same, followed in the same process by recipes easily confused with it
+	ev.Check(t, "c03_siblings", ev.N(8000, 100000), func(t *rapid.T) c03Case {
+		o := gen.CharOpts{MaxLen: 24, MaxReq: 3, Small: rapid.Bool().Draw(t, "small")}
+		c := c03Case{Spec: gen.CharSpec(t, o), Script: gen.Uint32s(t, "script", 4), Key: rapid.Uint64().Draw(t, "key")}
+		if len(c.Spec.RequireSets) == 0 {
+			c.Spec.RequireSets = []string{"ab", "c,d"}
+		}
+		return c
+	}, func(c c03Case) error {
+		if err := c03RunRaw(c); err != nil {
+			return err
+		}
+		for i, sib := range gen.Siblings(c.Spec) {
+			d := c
+			d.Spec = sib
+			ev.Eval(1)
+			if err := c03RunRaw(d); err != nil {
+				return fmt.Errorf("after using %+v, the sibling recipe #%d %+v: %w", c.Spec, i, sib, err)
+			}
+		}
+		return nil
+	})
 	// 3. recipes x forced draws
 	ev.Check(t, "c03_forced", ev.N(480, 12000), func(t *rapid.T) c03Case {
 		c := c02Gen(t)
